@@ -25,7 +25,7 @@ func VerifUsageDrivenCleanupOrder() {
 	cs, err := newCacheStore(dir, base.NewLocalFileStore(clk), 0)
 	verifMust(err)
 	n := verif.Bound("files", 2, 3)
-	files := verifPopulate(cs, n, verif.Bound("all-flag-kinds", 0, 1) == 1)
+	files := verifPopulate(cs, n, false)
 	clk.Set(time.Unix(verifInstant("now"), 0))
 
 	// bytes to free = total - total*50/100: 0, 1, 2, … for total 0, 1, 3, …
